@@ -42,7 +42,7 @@ CHECKS.update({
               "Every completed run's result is quantised into two-limb integers and TLC recomputes entry counts, sums, means, medians, per-cluster aggregates and cost = -loglik + within-series switching cost from the label lists and series boundaries; the recorded deviation F2b is a named action."),
     "C07": _t("model_checking", "6/C07", "TLA+ Boundaries theorem + Stacking model-checked with TLC; TLC trace validation of mask helper, joint stacking, joint runs and single-vs-joint memo",
               "TLC proves on the model that a zero switching cost on boundary pairs decomposes the joint problem; the real mask helper and joint stacking are validated on every tuple in range; every joint run is validated against TiccLoop with the switching cost observed at the labelling step; F2b is a named deviation."),
-    "C09": _t("model_checking", "6/C09", "TLA+ TiccLoop model-checked with TLC (all labellings, interleavings, faults) + TLC trace validation of every event of traced complete runs",
+    "C09": _t("model_checking", "6/C09", "TLA+ TiccLoop model-checked with TLC (all labellings, interleavings, faults) + TLC trace validation of every event of traced complete runs + behaviours of TiccLoop (tlc -simulate) replayed into the real loop as label scripts (DESIGN 12.7)",
               "TiccLoop is checked exhaustively on small instances (every initial labelling and relabelling, worker interleavings) for the bound on rounds, the stopping rule, the repopulation rule and 'returns what it scored'; every traced run must be a behaviour of the same specification with all invariants evaluated at every step."),
     "C12": _t("model_checking", "6/C12", "TLA+ TiccLoop provenance invariants (TLC) + TLC trace validation of statistics/submit events with the O1 observation",
               "Provenance of statistics and optimiser arguments is state of the specification; traces bind it to digests and the O1 observation (sample mean/covariance of exactly the windows labelled k with the requested estimator)."),
@@ -128,7 +128,7 @@ def main():
 
 
 SOURCE_COMMITS = ["5d3c2c3", "6e4f46b"]
-FIX_COMMITS = ["84b773b", "5ef812d", "4fe1bb6", "c7c2170", "91550fd", "d50e1da", "211358d", "62eaea4"]
+FIX_COMMITS = ["84b773b", "5ef812d", "4fe1bb6", "c7c2170", "91550fd", "d50e1da", "211358d", "62eaea4", "d4d302d"]
 NA = {}
 
 if __name__ == "__main__":
